@@ -106,33 +106,33 @@ package types
 //@ func (*Pool).UpdatePoolAssetBalances
 //@ forall d Str
 //@ requires uniqueAssetDenoms(p)
-//@ modifies *p.PoolAssets
+//@ modifies elems:p.PoolAssets
 //@ ensures C02/only-reserves-change: true
 //@ ensures C01/listed-denoms-set-others-kept: err == nil ==> reserveOf(p, d) == ite(amt(coins, d) != 0, amt(coins, d), old(reserveOf(p, d)))
 //@ ensures C01/assets-stay-unique: uniqueAssetDenoms(p)
 
 //@ func (*Pool).IncreaseLiquidity
-//@ modifies *p.PoolAssets, *p.TotalShares
+//@ modifies elems:p.PoolAssets, *p.TotalShares
 //@ ensures C02/shares-up-by-the-amount: err == nil ==> p.TotalShares.Amount == old(p.TotalShares.Amount) + sharesAmt && p.TotalShares.Denom == old(p.TotalShares.Denom)
 //@ forall d Str
 //@ ensures C01/reserves-up-by-the-coins: err == nil ==> reserveOf(p, d) == old(reserveOf(p, d)) + amt(coinsIn, d)
 
 //@ func (*Pool).DecreaseLiquidity
-//@ modifies *p.PoolAssets, *p.TotalShares
+//@ modifies elems:p.PoolAssets, *p.TotalShares
 //@ ensures C02/shares-down-by-the-amount: err == nil ==> p.TotalShares.Amount == old(p.TotalShares.Amount) - sharesAmt && p.TotalShares.Denom == old(p.TotalShares.Denom)
 //@ forall d Str
 //@ ensures C01/reserves-down-by-the-coins: err == nil ==> reserveOf(p, d) == old(reserveOf(p, d)) - amt(coinsIn, d)
 
 //@ func (*Pool).JoinPool
 //@ decabstract
-//@ modifies *p.PoolAssets, *p.TotalShares
+//@ modifies elems:p.PoolAssets, *p.TotalShares
 //@ ensures C02/shares-up-by-the-shares-returned: err == nil ==> p.TotalShares.Amount == old(p.TotalShares.Amount) + numShares && p.TotalShares.Denom == old(p.TotalShares.Denom)
 //@ forall d Str
 //@ ensures C01/reserves-up-by-the-tokens-joined: err == nil ==> reserveOf(p, d) == old(reserveOf(p, d)) + amt(tokensJoined, d)
 
 //@ func (*Pool).ExitPool
 //@ decabstract
-//@ modifies *p.PoolAssets, *p.TotalShares
+//@ modifies elems:p.PoolAssets, *p.TotalShares
 //@ ensures C02/shares-down-by-the-exiting-shares: err == nil ==> p.TotalShares.Amount == old(p.TotalShares.Amount) - exitingShares && p.TotalShares.Denom == old(p.TotalShares.Denom)
 //@ forall d Str
 //@ requires uniqueAssetDenoms(p)
